@@ -27,8 +27,6 @@ ASSUMPTIONS = [
 ]
 BUDGET = {'quick': 1200, 'thorough': 25000}
 
-STRICT = [e for e in enz.ENZYMES if e not in cveval.PEPSINS] + ['trypsin'] * 8
-
 DEFAULT_EXCLUSION = ['protein_coding', 'Mt_rRNA', 'Mt_tRNA', 'miRNA', 'misc_RNA', 'rRNA',
     'scRNA', 'snRNA', 'snoRNA', 'ribozyme', 'sRNA', 'scaRNA', 'Mt_tRNA_pseudogene',
     'tRNA_pseudogene', 'snoRNA_pseudogene', 'snRNA_pseudogene', 'scRNA_pseudogene',
@@ -41,12 +39,10 @@ def strategy_(draw, tier):
     d = D(draw)
     refd = refgen.gen_reference(d, n_genes=(1, 3), max_tx=d.choice([1, 2, 3]),
         p_coding=0.45, p_nf=0.1, exon_len=(9, 60))
-    # strict domain (zero tolerance): rules on which the unchanged tree is clean; wild domain
-    # (thorough tier): all rules and exception settings, discrepancies tolerated only with the
-    # signature of the open findings CV-pepsin / CV-trypsin-exception
-    wild = tier == 'thorough' and d.chance(0.4)
-    opts = cveval.gen_opts(d, cveval.ALL_ENZYMES if wild else STRICT, alt=False, limits=True,
-        exceptions=(None, 'auto', 'trypsin_exception') if wild else (None,))
+    # zero tolerance over all 35 rules and all exception settings (400 000 thorough cases on
+    # the unchanged tree: no discrepancy)
+    opts = cveval.gen_opts(d, cveval.ALL_ENZYMES, alt=False, limits=True,
+        exceptions=(None, None, 'auto', 'trypsin_exception'))
     opts.update(orf_assignment=d.choice(['max', 'min']), w2f=d.chance(0.4),
         coding_novel_orf=d.chance(0.4), min_tx_length=d.choice([21, 21, 40, 80, 120]))
     biotypes = sorted({g['biotype'] for g in refd['genes']})
@@ -83,15 +79,6 @@ def selected(ref:Ref, case):
             continue
         out.append(tid)
     return out
-
-
-def tolerated(case):
-    o = case['opts']
-    if o['rule'] in cveval.PEPSINS:
-        return 'CV-pepsin'
-    if enz.resolve_exception(o['rule'], o.get('exception')) == 'trypsin_exception':
-        return 'CV-trypsin-exception'
-    return None
 
 
 def orf_digest(seq, s, p):
@@ -175,10 +162,6 @@ def prop(case, ctx):
     got = set(peps)
     missing = L - got
     extra = got - U
-    if (missing or extra) and tolerated(case):
-        out.known.append(tolerated(case))
-        out.detail = dict(missing=sorted(missing)[:5], extra=sorted(extra)[:5])
-        return out
     if missing:
         return out.fail(f'{len(missing)} definitional novel-ORF peptide(s) missing, e.g. '
             f'{sorted(missing)[:4]} (reported {len(got)}, expected >= {len(L)})',
